@@ -49,6 +49,8 @@ def run_world(
     processors_factory: Any = None,
     step_cap: int = 200_000,
     prepare: Any = None,
+    derive: Any = None,
+    warm_values: Any = None,
 ) -> dict:
     """One fresh world: compile, run one top-level call, return outcome + runtime.
 
@@ -64,6 +66,21 @@ def run_world(
         graph, comp = build(spec, rt, "sync" if mode == "sync" else "async", bind)
         if prepare is not None:
             prepare(rt, graph, comp)
+        if derive is not None:
+            # object reuse: the base graph object is USED first (one run), only then the configured graph is derived
+            # from that very instance (with_entrypoint/select/bind return new objects that must not inherit anything stale)
+            wv = warm_values(graph) if callable(warm_values) else dict(warm_values or {})
+            if mode == "sync":
+                r0 = make_runner("sync", rt, None)
+                call_sync(rt, lambda: r0.run(graph, dict(wv), error_handling="continue"), call_id="warm")
+            else:
+                r0 = make_runner("async", rt, None)
+                call_async(rt, [lambda: r0.run(graph, dict(wv), error_handling="continue")], call_ids=["warm"])
+            rt.log("derive_marker")
+            try:
+                graph = derive(graph)
+            except Exception as e:  # noqa: BLE001
+                raise BuildError(f"{type(e).__name__}: {str(e)[:200]}") from e
         if callable(values):
             values = values(graph)
         if processors_factory is not None:
